@@ -90,10 +90,22 @@ pub struct Cx {
     pub fails: Vec<String>,
     pub cases: usize,
     pub stats: BTreeMap<String, u64>,
+    pub seen: std::collections::HashSet<String>,
 }
 impl Cx {
     pub fn new() -> Self {
-        Cx { out: String::new(), fails: vec![], cases: 0, stats: BTreeMap::new() }
+        Cx { out: String::new(), fails: vec![], cases: 0, stats: BTreeMap::new(), seen: std::collections::HashSet::new() }
+    }
+    /// records one implementation-side evaluation (a fault point, a schedule, a configuration ...) that has
+    /// no model line of its own; the first few are written out as samples
+    pub fn note(&mut self, what: String) {
+        *self.stats.entry("evaluations".to_string()).or_insert(0) += 1;
+        if self.seen.insert(what.clone()) {
+            *self.stats.entry("distinct".to_string()).or_insert(0) += 1;
+            if self.seen.len() <= 6 {
+                writeln!(self.out, "INFO sample {}", what).unwrap();
+            }
+        }
     }
     pub fn emit(&mut self, q: String, a: String) {
         writeln!(self.out, "{} = {}", q, a).unwrap();
@@ -472,6 +484,36 @@ pub async fn one_history<TC: Configuration>(cx: &mut Cx, r: &mut Rng, o: &RunOpt
         if (ep + 1) % o.query_every == 0 || ep + 1 == o.epochs {
             queries::<TC>(cx, &dir, &t, &tab, &labels, r, o.audits).await;
         }
+    }
+    // tombstoning through the storage manager (C20): the model's d_tombstone must give the same state, the same
+    // history proofs and the same verdicts in both verification modes; a further publish must still correspond
+    if let Some((tl, tv)) = t.versions.iter().find(|(_, v)| v.len() >= 2).map(|(l, v)| (l.clone(), v.clone())) {
+        let cut = tv[tv.len() - 2].2;
+        let st2 = StorageManager::new_no_cache(db.clone());
+        st2.tombstone_value_states(&AkdLabel(tl.clone()), cut).await.unwrap();
+        cx.emit(format!("dtomb {} {}", hb(&tl), cut), "ok".into());
+        cx.emit("state".into(), dump_state::<TC>(&db).await);
+        cx.stat("tombstones");
+        let pk = hex::encode(&tab.pk);
+        let d2 = new_dir::<TC>(&db, false, false).await;
+        for hp in [HistoryParams::Complete, HistoryParams::MostRecent(1)] {
+            let ps = match hp { HistoryParams::Complete => "c".to_string(), HistoryParams::MostRecent(n) => format!("m{}", n) };
+            if let Ok((p, e)) = d2.key_history(&AkdLabel(tl.clone()), hp).await {
+                cx.emit(format!("hist {} {}", hb(&tl), ps), format!("ok {} {} {}", e.0, hx(&e.1), ser_history(&p)));
+                for allow in [false, true] {
+                    let vp = if allow { HistoryVerificationParams::AllowMissingValues { history_params: hp } } else { HistoryVerificationParams::Default { history_params: hp } };
+                    let v = key_history_verify::<TC>(&tab.pk, e.1, e.0, AkdLabel(tl.clone()), p.clone(), vp);
+                    cx.emit(format!("vhist {} {} {} {} {} {} {} {}", cfg, pk, hx(&e.1), e.0, hb(&tl), ps, allow as u8, ser_history(&p)), match &v { Ok(rs) => format!("ok {} {}", rs.len(), rs.iter().map(res_str).collect::<Vec<_>>().join(" ")), Err(_) => "err".into() });
+                }
+            }
+        }
+        if let Ok((p, e)) = d2.lookup(AkdLabel(tl.clone())).await {
+            cx.emit(format!("lookup {}", hb(&tl)), format!("ok {} {} {}", e.0, hx(&e.1), ser_lookup(&p)));
+        }
+        let b = vec![(tl.clone(), vec![0x7A, 1]), (labels[labels.len() - 1].clone(), vec![0x7A, 2])];
+        let res = d2.publish(b.iter().map(|(l, v)| (AkdLabel(l.clone()), AkdValue(v.clone()))).collect()).await;
+        cx.emit(format!("pub {} {}", b.len(), b.iter().map(|(l, v)| format!("{} {}", hb(l), hb(v))).collect::<Vec<_>>().join(" ")), match &res { Ok(EpochHash(e, h)) => format!("ok {} {}", e, hx(h)), Err(_) => "err O".into() });
+        cx.emit("state".into(), dump_state::<TC>(&db).await);
     }
     let _ = dir;
 }
